@@ -11,8 +11,9 @@ EXPLANATION = (
     "unchanged), the depth terms of all leaf kinds, the fold operators of the nine VarianceFold impls (alternation = "
     "disjunction, concatenation and repetition = conjunction, repetition finalised by a product with its own range), and "
     "the result shapes of Variance conjunction / disjunction / product (anything combined with an unbounded term is "
-    "never invariant and never regains an upper bound).  (range) the arithmetic of the natural ranges: conjunction, disjunction, product (range x range and range x factor) and translation of BoundedVariantRange, evaluated on a grid of all operand shapes (Lower / Upper / Both) x three magnitudes each, contain the result of interval arithmetic - each bound is one of finitely many polynomials of degree <= 2 chosen by the operand shapes, so the grid decides which one is used.")
-RULES = "C10.sound (TABLE on a catalogue: verdict vs. language), C10.term (TABLE), C10.final (TABLE), C10.leaf (TABLE), C10.ops (SIBLING), C10.shape (TABLE), C10.range (TABLE on a grid)"
+    "never invariant and never regains an upper bound).  (range) the arithmetic of the natural ranges: conjunction, disjunction, product (range x range and range x factor) and translation of BoundedVariantRange, evaluated on a grid of all operand shapes (Lower / Upper / Both) x three magnitudes each, contain the result of interval arithmetic - each bound is one of finitely many polynomials of degree <= 2 chosen by the operand shapes, so the grid decides which one is used.  "
+    "(public) Program::depth of Glob and Any, evaluated with the tree query replaced by each of 20 internal variances (invariant 0..3, unbounded, every shape of bounded range x three magnitudes), returns a public value that - read through its own accessors invariant / variant / lower / upper - denotes the same interval: the conversion into the public types neither swaps nor drops a bound.")
+RULES = "C10.sound (TABLE on a catalogue: verdict vs. language), C10.term (TABLE), C10.final (TABLE), C10.leaf (TABLE), C10.ops (SIBLING), C10.shape (TABLE), C10.range (TABLE on a grid), C10.public (TABLE on a grid + SIBLING: Program::depth hands out the interval the analysis computed)"
 
 TERM = "token::variance::invariant::term::Termination"
 COAL = "token::variance::invariant::term::Coalescence"
@@ -54,6 +55,7 @@ def run(ctx):
     rule_range(F, R)
     from . import exhaust
     exhaust.report_query(F, R, "C10.sound", ctx.tier, "depth", 5000, 1500)
+    rule_public(F, R)
 
 
 def new_interp(F, stubs=None):
@@ -476,3 +478,91 @@ def rule_range(F, R):
                 fail_msg="a repetition written `:%s,%s` has the range %s, expected %s (bounds reordered, an open upper bound stays open)" % (
                     lo, "" if hi is None else hi, got, want))
     R.floor("C10.range", "range cells", n, 600)
+
+
+# ---------------------------------------------------------------------------------------------------
+# C10.public: what Program::depth hands to the caller is the depth variance the analysis computed
+
+
+def rule_public(F, R):
+    """C10.public (TABLE on a grid + SIBLING): `Program::depth` of Glob and of Any is evaluated with the token tree's
+    own variance query replaced by each value of a grid of internal depth variances (invariant 0..3, unbounded, every
+    shape of bounded range x three magnitudes); the public value it returns (query::Variance<usize, VariantRange>), read
+    through its own accessors (`invariant()`, `variant()`, `VariantRange::lower()` / `upper()`), must denote the same
+    interval: the conversion into the public types neither swaps nor drops a bound, and both impls ask their own tree."""
+    from ..teval import Interp
+    grid = {"Invariant(%d)" % n: (Adt(VAR, "Invariant", {"0": Adt(DEPTH, "Depth", {"0": n})}), (n, n)) for n in range(0, 4)}
+    grid["Unbounded"] = (unbounded(), (0, None))
+    for name, (r, iv) in range_grid().items():
+        grid[name] = (bounded(r), iv)
+    inv_acc = F.find("query::Variance::invariant", optional=True)
+    var_acc = F.find("query::Variance::variant", optional=True)
+    def public_accessor(name):
+        c = [it for it in F.items.values() if it.name == name and it.kind == "AssocFn" and it.where().startswith("src/query.rs") and
+             it.qname.endswith("Boundedness::" + name)]
+        return c[0] if len(c) == 1 else None
+    low, upp = public_accessor("lower"), public_accessor("upper")
+    if None in (inv_acc, var_acc, low, upp):
+        R.anchor_missing("C10.public", "the accessors of query::Variance / VariantRange (invariant, variant, lower, upper)")
+        return
+
+    def opt(v):
+        v = strip(v)
+        if isinstance(v, Adt) and v.variant == "Some":
+            return strip(v.fields["0"])
+        return None
+
+    def bound(v):
+        """Boundedness<NonZeroUsize> -> int | None (unbounded) | 'bad'"""
+        v = strip(v)
+        if isinstance(v, Adt) and v.variant == "Unbounded":
+            return None
+        if isinstance(v, Adt) and v.variant == "Bounded":
+            x = strip(v.fields["0"])
+            return x if isinstance(x, int) else "bad"
+        return "bad"
+    n = 0
+    for owner in ("Glob", "Any"):
+        it = F.find("<%s as Program>::depth" % owner, optional=True)
+        if it is None:
+            R.anchor_missing("C10.public", "<%s as Program>::depth" % owner)
+            continue
+        for name, (value, (lo, hi)) in grid.items():
+            asked = []
+
+            def variance(I, a, fn, e, value=value):
+                asked.append(repr(strip(a[0]))[:60])
+                return value
+            I = Interp(F, {"token::Token::variance": variance})
+            me = Adt(owner, owner, {"tree": Sym("own-tree"), "program": Sym("program")})
+
+            def run():
+                del asked[:]
+                pub = I.call_item(it, [Ref(Place(Cell(me)))])
+                inv = opt(I.call_item(inv_acc, [pub], inst=False))
+                if inv is not None:
+                    return ("invariant", inv)
+                rng = opt(I.call_item(var_acc, [pub], inst=False))
+                if rng is None:
+                    return ("neither", strip(pub))
+                l = bound(I.call_item(low, [Ref(Place(Cell(rng)))], inst=False))
+                u = bound(I.call_item(upp, [Ref(Place(Cell(rng)))], inst=False))
+                return ("variant", l, u)
+            cases = I.explore(run)
+            n += 1
+            got = None
+            if len(cases) == 1 and isinstance(cases[0].result, tuple) and not I.tops:
+                r = cases[0].result
+                inv = r[1] if r[0] == "invariant" else None
+                if isinstance(inv, Adt) and inv.path == DEPTH and isinstance(strip(inv.fields.get("0")), int):
+                    inv = strip(inv.fields["0"])      # the newtype's conversion into usize is the identity on the number
+                if r[0] == "invariant" and isinstance(inv, int):
+                    got = (inv, inv)
+                elif r[0] == "variant" and "bad" not in r[1:]:
+                    # a missing lower bound is zero; NonZero bounds
+                    got = (r[1] or 0, r[2])
+            want = (lo, hi)
+            R.check(got == want and len(asked) == 1, "C10.public", "%s::depth/%s" % (owner, name), "the public depth variance denotes %s" % (want,), it.where(),
+                    fail_msg="the token tree reports the depth variance %s = %s, %s::depth() hands out %s (%r; variance queries: %s): the public value must "
+                             "denote the same interval" % (name, want, owner, got, [c.result for c in cases][:1], asked[:2]))
+    R.floor("C10.public", "impl x internal variance cells", n, 40)
